@@ -11,10 +11,14 @@ theorem sgnMul_mul (a b : Sign) (q : Rat) : sgnMul a (sgnMul b q) = sgnMul (Sign
   cases a <;> cases b <;> simp [sgnMul, Sign.mul]
 
 theorem sgnMul_div (a : Sign) (q n : Rat) : sgnMul a (q / n) = sgnMul a q / n := by
-  cases a <;> simp [sgnMul] <;> ring
+  cases a
+  · simp [sgnMul]
+  · simp only [sgnMul]; ring
 
 theorem sgnMul_mul_right (a : Sign) (q n : Rat) : sgnMul a q * n = sgnMul a (q * n) := by
-  cases a <;> simp [sgnMul] <;> ring
+  cases a
+  · simp [sgnMul]
+  · simp only [sgnMul]; ring
 
 /-- in an unsigned dictionary `get(key, default)` does not depend on which alias is used -/
 theorem getD_unsigned {V : Type} [NegVal V] (r : Rel) (a : ADict V) (k k' : VName) (d : V)
